@@ -164,6 +164,42 @@ theorem table_eq_uses (c : Case) : table c = uses c := by
   cases u
   simp_all [globalsOf]
 
+/-- the `__getattr__` script's own globals: no module namespace is merged in, so every one of its
+    loads finds the helper it was given, or the builtin — whatever the module binds -/
+theorem getattrTable_eq_uses (c : Case) : getattrTable c = getattrUses c := by
+  have hg : ∀ m, getattrGlobs m = fixedBinds Generated.c17GetattrFixed := by
+    intro m; simp [getattrGlobs, getattrGlobsWith, getattrPart, Generated.c17GetattrMergeOrder]
+  simp only [getattrTable, hg]
+  conv => rhs; rw [← List.map_id (getattrUses c)]
+  apply List.map_congr_left
+  intro u hu
+  simp only [getattrUses] at hu
+  split at hu
+  · simp only [List.mem_append, List.mem_cons, List.not_mem_nil, or_false] at hu
+    rcases hu with (h | h | h) | h
+    · subst h; decide
+    · subst h; decide
+    · subst h; decide
+    · split at h
+      · simp at h
+      · simp only [List.mem_cons, List.not_mem_nil, or_false] at h
+        rcases h with h | h | h <;> subst h <;> decide
+  · simp at hu
+
+theorem getattrUses_ok (c : Case) (u : Entry) (h : u ∈ getattrUses c) : entryOk c u = true := by
+  simp only [getattrUses] at h
+  split at h
+  · simp only [List.mem_append, List.mem_cons, List.not_mem_nil, or_false] at h
+    rcases h with (h | h | h) | h
+    · subst h; simp [entryOk, fx, fixedObj, attrsObjectNames]
+    · subst h; simp [entryOk, fx, fixedObj, attrsObjectNames]
+    · subst h; simp [entryOk, fx, fixedObj, attrsObjectNames]
+    · split at h
+      · simp at h
+      · simp only [List.mem_cons, List.not_mem_nil, or_false] at h
+        rcases h with h | h | h <;> subst h <;> simp [entryOk, bi, usedBuiltins]
+  · simp at h
+
 theorem known_nil (c : Case) (h : known c = []) : paramShadows c = false := by
   simp only [known, knownK17c] at h
   cases hx : paramShadows c <;> simp_all
